@@ -212,7 +212,9 @@ def judge(plan, tr: P.Trace):
     probes: t.Dict[str, int] = {}
     rk = tr.root_keys[0]
     prots = [ot for ot in tr.ops if ot.op["op"] == "protect"]
-    unps = [ot for ot in tr.ops if ot.op["op"] == "unprotect"]
+    unps = [ot for ot in tr.ops if ot.op["op"] == "unprotect" and not (ot.op["blob"] or {}).get("faults")]
+    if any(ot.op["op"] == "unprotect" and (ot.op["blob"] or {}).get("faults") for ot in tr.ops):
+        probes["after_a_record_that_does_not_unwrap"] = 1
     if plan.get("family") == "many-sids":
         probes["many_sids_one_position"] = 1
     if len(prots) > 1 and plan.get("family") not in ("threads", "same-prime", "many-sids", "moving-clock"):
@@ -331,7 +333,7 @@ class C03(common.Check):
     components = {"client": "real (new_kek / get_kek / compute_kek / compute_public_key through the public API)", "entropy": "simulated, scripted draws",
                   "DC": "model (RefDC, public-key and seed replies)", "independent implementation": "ref.gkdi + ref.ec (own P-256/P-384 arithmetic, pow() DH, hashlib KDFs)"}
     assumptions = ["reference calibrated on the 16 Windows blobs (gate before every run)", "hash x algorithm sweep is workload parameterisation"]
-    required_fired = ("two_sids_same_position", "key_length_wider_than_modulus", "lz_shared_secret", "lz_public_value", "lz_coord_x", "lz_coord_y", "lz_nonce", "agree_DH_pub", "agree_ECDH_P256_pub", "agree_ECDH_P384_pub", "agree_DH_nonce", "thread_plans", "thread_overlap", "nonce_with_structure_magic", "two_groups_same_prime", "many_sids_one_position", "pure_thread_cases", "moving_clock_plans", "boundary_passed_before_key_id", "key_blob_wider_than_group_params", "ecdh_key_blob_padded")
+    required_fired = ("two_sids_same_position", "key_length_wider_than_modulus", "lz_shared_secret", "lz_public_value", "lz_coord_x", "lz_coord_y", "lz_nonce", "agree_DH_pub", "agree_ECDH_P256_pub", "agree_ECDH_P384_pub", "agree_DH_nonce", "thread_plans", "thread_overlap", "nonce_with_structure_magic", "two_groups_same_prime", "many_sids_one_position", "pure_thread_cases", "moving_clock_plans", "boundary_passed_before_key_id", "key_blob_wider_than_group_params", "ecdh_key_blob_padded", "after_a_record_that_does_not_unwrap")
 
     def cases(self, tier, seed):
         rng = prng.stream(seed, "C03")
@@ -372,6 +374,14 @@ class C03(common.Check):
             priv_len = rng.choice((kl * 8, kl * 8 - 3, kl * 8 - 1, max(8, kl * 8 - 8), 9, 12, kl * 8 + 16, 512))  # also wider than the modulus
             spec = [52 + i % 3, offline.HASHES[i % 4], "DH", {"dh": grp, "priv_len": priv_len}]
             out.append(base_plan(spec, rng.getrandbits(31), "pub", rng.choice(("sync", "async")), rng.choice(("sync", "async"))))
+            if i % 5 == 2:
+                # earlier in the same process: a public-key record of this key whose wrapped CEK does not unwrap (a damaged record);
+                # whatever that failure leaves behind, the derivations that follow are the same derivations
+                pl_ = out[-1]
+                pl_["ops"] = [{"op": "identity", "sids": [SID]},
+                              {"op": "unprotect", "fl": rng.choice(("sync", "async")), "net": "online", "cache": "fresh",
+                               "blob": {"rk": 0, "sid": SID, "pos": list(POS), "mode": "pub", "data": 5, "faults": [["field", "enc_cek", "00" * 40]]}}] + \
+                    [dict(o, blob=dict(o["blob"], from_op=o["blob"]["from_op"] + 2)) if o["op"] == "unprotect" else o for o in pl_["ops"]]
             if i % 6 == 1:
                 # the DC hands out the group public key in a blob padded wider than the group's own parameter blob
                 out[-1]["dc"] = {"byz": {"dh_pub_key_length": grp[0] + rng.choice((1, 2, 4, 5))}}
